@@ -10,7 +10,7 @@ TStr == Ty("String")
 TInt == Ty("Int")
 TBool == Ty("Boolean")
 Entry(name, sgs, us, argmenu, varmenu, ops) ==
-  [name |-> name, sgs |-> sgs, universes |-> us, argmenu |-> argmenu, varmenu |-> varmenu, ops |-> ops, broken |-> us[1]]
+  [name |-> name, sgs |-> sgs, universes |-> us, argmenu |-> argmenu, varmenu |-> varmenu, ops |-> ops, broken |-> us[1], broken2 |-> us[1]]
 \* pinned operation for the model check of FedNondet
 Op(doc, vars) == [doc |-> doc, vars |-> vars]
 Fl(n) == Field(n, "", <<>>, <<>>, <<>>)                     \* leaf field
@@ -208,8 +208,11 @@ E3 == Entry("requires", <<E3_products, E3_shipping, E3_vendors>>, <<E3_U1, E3_U2
 \* @provides with an @external field, a value type shared by two subgraphs, an entity field shared by two
 \* subgraphs (either owner is a legitimate choice)
 E4_posts == SG("posts", <<
-  Obj("Query", <<>>, <<>>, << F("feed", Li(Ty("Post"))) >>),
-  Obj("Post", <<>>, <<>>, << F("text", NN(TStr)), Prov(F("by", NN(Ty("Author"))), <<FS("handle")>>), F("editor", Ty("Author")) >>),
+  Obj("Query", <<>>, <<>>, << F("feed", Li(Ty("Post"))),
+                              Prov(F("board", Ty("Board")), <<FSN("lead", <<FS("handle")>>)>>) >>),        \* @provides on a NESTED path
+  Obj("Post", <<>>, <<>>, << F("text", NN(TStr)), Prov(F("by", NN(Ty("Author"))), <<FS("handle")>>), F("editor", Ty("Author")),
+                             Prov(F("likers", Li(NN(Ty("Author")))), <<FS("handle")>>) >>),               \* @provides on a LIST of entities
+  Obj("Board", <<>>, <<>>, << F("name", TStr), F("lead", NN(Ty("Author"))), F("second", Ty("Author")) >>),
   Obj("Author", <<Key(<<FS("id")>>)>>, <<>>, << F("id", NN(TID)), Ext(F("handle", NN(TStr))), F("posts", Li(Ty("Post"))) >>) >>)
 E4_users == SG("users", <<
   Obj("Query", <<>>, <<>>, << F("authors", NN(Li(NN(Ty("Author"))))) >>),
@@ -220,8 +223,9 @@ E4_billing == SG("billing", <<
   Obj("Money", <<>>, <<>>, << F("amount", TInt), F("cur", NN(TStr)) >>) >>)
 
 E4_U1 == Uv("all-present", <<
-  O("Q", "Query", [feed |-> Lst(<<Ref("t1"), Ref("t2"), Ref("t3")>>), authors |-> Lst(<<Ref("a1"), Ref("a2")>>)]),
-  O("t1", "Post", [text |-> Str("hello"), by |-> Ref("a1"), editor |-> Ref("a2")]),
+  O("Q", "Query", [feed |-> Lst(<<Ref("t1"), Ref("t2"), Ref("t3")>>), authors |-> Lst(<<Ref("a1"), Ref("a2")>>), board |-> Ref("bd")]),
+  O("bd", "Board", [name |-> Str("main"), lead |-> Ref("a2"), second |-> Ref("a1")]),
+  O("t1", "Post", [text |-> Str("hello"), by |-> Ref("a1"), editor |-> Ref("a2"), likers |-> Lst(<<Ref("a2"), Ref("a1"), Ref("a2")>>)]),
   O("t2", "Post", [text |-> Str("world"), by |-> Ref("a2"), editor |-> Ref("a2")]),
   O("t3", "Post", [text |-> Str("again"), by |-> Ref("a1"), editor |-> Ref("a1")]),
   O("a1", "Author", [id |-> Str("a1"), handle |-> Str("@ann"), karma |-> Num(7), posts |-> Lst(<<Ref("t1"), Ref("t3")>>), wallet |-> Ref("m1"), budget |-> Ref("m2")]),
@@ -229,24 +233,33 @@ E4_U1 == Uv("all-present", <<
   O("m1", "Money", [amount |-> Num(5), cur |-> Str("EUR")]),
   O("m2", "Money", [amount |-> Num(8), cur |-> Str("USD")]) >>)
 E4_U2 == Uv("nullable-nulls", <<
-  O("Q", "Query", [feed |-> Lst(<<Ref("t1"), Null, Ref("t2")>>), authors |-> Lst(<<Ref("a1"), Ref("a2")>>)]),
-  O("t1", "Post", [text |-> Str("hello"), by |-> Ref("a1"), editor |-> Null]),
+  O("Q", "Query", [feed |-> Lst(<<Ref("t1"), Null, Ref("t2")>>), authors |-> Lst(<<Ref("a1"), Ref("a2")>>), board |-> Null]),
+  O("t1", "Post", [text |-> Str("hello"), by |-> Ref("a1"), editor |-> Null, likers |-> Lst(<<>>)]),
   O("t2", "Post", [text |-> Str("world"), by |-> Ref("a2"), editor |-> Ref("a1")]),
   O("a1", "Author", [id |-> Str("a1"), handle |-> Str("@ann"), karma |-> Null, posts |-> Null, wallet |-> Null, budget |-> Ref("m2")]),
   O("a2", "Author", [id |-> Str("a2"), handle |-> Str("@bob"), karma |-> Num(9), posts |-> Lst(<<Ref("t2"), Null>>), wallet |-> Ref("m2"), budget |-> Null]),
   O("m2", "Money", [amount |-> Null, cur |-> Str("USD")]) >>)
 E4_U3 == Uv("null-in-nonnull", <<
-  O("Q", "Query", [feed |-> Lst(<<Ref("t1"), Ref("t2")>>), authors |-> Lst(<<Ref("a1"), Ref("a2")>>)]),
-  O("t1", "Post", [text |-> Str("hello"), by |-> Ref("a1"), editor |-> Ref("a2")]),
+  O("Q", "Query", [feed |-> Lst(<<Ref("t1"), Ref("t2")>>), authors |-> Lst(<<Ref("a1"), Ref("a2")>>), board |-> Ref("bd")]),
+  O("bd", "Board", [name |-> Null, lead |-> Ref("a1"), second |-> Null]),
+  O("t1", "Post", [text |-> Str("hello"), by |-> Ref("a1"), editor |-> Ref("a2"), likers |-> Lst(<<Ref("a1")>>)]),
   O("t2", "Post", [text |-> Null, by |-> Ref("a2"), editor |-> Ref("a1")]),
   O("a1", "Author", [id |-> Str("a1"), handle |-> Str("@ann"), karma |-> Num(7), posts |-> Lst(<<Ref("t1")>>), wallet |-> Ref("m1"), budget |-> Ref("m1")]),
   O("a2", "Author", [id |-> Str("a2"), handle |-> Str("@bob"), karma |-> Num(9), posts |-> Lst(<<Ref("t2")>>), wallet |-> Ref("m2"), budget |-> Ref("m2")]),
   O("m1", "Money", [amount |-> Num(5), cur |-> Str("EUR")]),
   O("m2", "Money", [amount |-> Num(8), cur |-> Null]) >>)
 
+\* negative control: users and billing both own Author.karma and DISAGREE on a1
+E4_inconsistent == UvOver("owners-disagree", <<
+  O("Q", "Query", [feed |-> Lst(<<Ref("t1")>>), authors |-> Lst(<<Ref("a1")>>)]),
+  O("t1", "Post", [text |-> Str("hello"), by |-> Ref("a1"), editor |-> Ref("a1")]),
+  O("a1", "Author", [id |-> Str("a1"), handle |-> Str("@ann"), karma |-> Num(7), posts |-> Lst(<<Ref("t1")>>), wallet |-> Null, budget |-> Null]) >>,
+  <<Dev("billing", "a1", "karma", Num(99))>>)
 E4 == Entry("provides", <<E4_posts, E4_users, E4_billing>>, <<E4_U1, E4_U2, E4_U3>>, <<>>, <<>>,
   << Op(Doc(<< Fo("feed", <<Fl("text"), Fo("by", <<Fl("handle"), Fl("karma")>>), Fo("editor", <<Fl("handle")>>)>>) >>, <<>>, <<>>), <<>>),
-     Op(Doc(<< Fo("authors", <<Fl("karma"), Fo("wallet", <<Fl("amount")>>), Fo("budget", <<Fl("cur")>>), Fo("posts", <<Fo("by", <<Fl("handle")>>)>>)>>) >>, <<>>, <<>>), <<>>) >>)
+     Op(Doc(<< Fo("authors", <<Fl("karma"), Fo("wallet", <<Fl("amount")>>), Fo("budget", <<Fl("cur")>>), Fo("posts", <<Fo("by", <<Fl("handle")>>)>>)>>) >>, <<>>, <<>>), <<>>),
+     Op(Doc(<< Fo("board", <<Fl("name"), Fo("lead", <<Fl("handle"), Fl("karma")>>), Fo("second", <<Fl("handle")>>)>>),
+               Fo("feed", <<Fo("likers", <<Fl("handle"), Fl("id")>>)>>) >>, <<>>, <<>>), <<>>) >>)
 
 \* ============================================================================ E5 "abstract"
 \* entities behind an interface and in a union (with a non-entity member); fields of the members live in
@@ -291,7 +304,9 @@ E5_U4 == Uv("empty-lists", <<
 
 E5 == Entry("abstract", <<E5_search, E5_books, E5_movies>>, <<E5_U1, E5_U2, E5_U3, E5_U4>>, <<>>, <<>>,
   << Op(Doc(<< Fo("search", <<Fl("__typename"), Inline("Book", <<>>, <<Fl("title"), Fl("pages")>>), Inline("Movie", <<>>, <<Fl("mins")>>), Inline("Ad", <<>>, <<Fl("text")>>)>>) >>, <<>>, <<>>), <<>>),
-     Op(Doc(<< Fo("nodes", <<Fl("id"), Inline("Movie", <<>>, <<Fo("sequel", <<Fl("title"), Fl("mins")>>)>>), Inline("Book", <<>>, <<Fo("writer", <<Fl("name")>>)>>)>>) >>, <<>>, <<>>), <<>>) >>)
+     Op(Doc(<< Fo("nodes", <<Fl("id"), Inline("Movie", <<>>, <<Fo("sequel", <<Fl("title"), Fl("mins")>>)>>), Inline("Book", <<>>, <<Fo("writer", <<Fl("name")>>)>>)>>) >>, <<>>, <<>>), <<>>),
+     \* two __typename selections next to a fragment that the rewriter expands (finding C01-3)
+     Op(Doc(<< Fo("feat", <<Inline("Node", <<>>, <<Fl("id")>>), Field("__typename", "a1", <<>>, <<>>, <<>>), Field("__typename", "a2", <<>>, <<>>, <<>>)>>) >>, <<>>, <<>>), <<>>) >>)
 
 \* ============================================================================ E6 "deep"
 \* a list of entities three hops deep (catalog -> library -> people -> library), lists of lists, the same
@@ -563,8 +578,129 @@ E10 == Entry("abstract2", <<E10_first, E10_second>>, <<E10_U1, E10_U2, E10_U3, E
      Op(Doc(<< Fo("accounts", <<Fl("id"), Fl("title"), Inline("Admin", <<>>, <<Fl("adminName"), Fl("level")>>), Fo("friends", <<Fl("nick"), Fl("title")>>)>>),
                Fo("nodes", <<Fl("__typename"), Inline("Comment", <<>>, <<Fl("text"), Fo("owner", <<Fl("nick")>>)>>)>>) >>, <<>>, <<>>), <<>>) >>)
 
+\* ============================================================================ E11 "requires2"
+\* @requires CHAINS: top.top requires `mid`, which mid.mid computes from `base` (owned by base); a field requiring an
+\* owned and a computed input at once; a @requires with scalar and nested value-type inputs together
+E11_base == SG("base", <<
+  Obj("Query", <<>>, <<>>, << F("things", NN(Li(NN(Ty("Thing"))))), FA("thing", Ty("Thing"), "id", NN(TID)) >>),
+  Obj("Thing", <<Key(<<FS("id")>>)>>, <<>>, << F("id", NN(TID)), F("base", TInt), F("unit", Ty("Unit")), F("note", Ty("Note")) >>),
+  Obj("Unit", <<>>, <<>>, << F("code", TStr), F("factor", TInt) >>),
+  Obj("Note", <<>>, <<>>, << F("text", NN(TStr)) >>) >>)
+E11_mid == SG("mid", <<
+  Obj("Thing", <<Key(<<FS("id")>>)>>, <<>>,
+      << F("id", NN(TID)), Ext(F("base", TInt)), Ext(F("unit", Ty("Unit"))),
+         Req(F("mid", TStr), <<FS("base")>>),
+         Req(F("wide", TStr), <<FS("base"), FSN("unit", <<FS("code"), FS("factor")>>)>>) >>),
+  Obj("Unit", <<>>, <<>>, << Ext(F("code", TStr)), Ext(F("factor", TInt)) >>) >>)
+E11_top == SG("top", <<
+  Obj("Thing", <<Key(<<FS("id")>>)>>, <<>>,
+      << F("id", NN(TID)), Ext(F("mid", TStr)), Ext(F("base", TInt)),
+         Req(F("top", TStr), <<FS("mid")>>),
+         Req(F("both", TStr), <<FS("base"), FS("mid")>>) >>) >>)
+E11_thingFn == Fn("id", <<Case(Str("t1"), Ref("t1")), Case(Str("t2"), Ref("t2"))>>, Null)
+E11_U1 == Uv("all-present", <<
+  O("Q", "Query", [things |-> Lst(<<Ref("t1"), Ref("t2")>>), thing |-> E11_thingFn]),
+  O("t1", "Thing", [id |-> Str("t1"), base |-> Num(3), unit |-> Ref("n1"), note |-> Ref("o1")]),
+  O("t2", "Thing", [id |-> Str("t2"), base |-> Num(5), unit |-> Ref("n2"), note |-> Ref("o1")]),
+  O("n1", "Unit", [code |-> Str("kg"), factor |-> Num(2)]),
+  O("n2", "Unit", [code |-> Str("lb"), factor |-> Num(7)]),
+  O("o1", "Note", [text |-> Str("memo")]) >>)
+E11_U2 == Uv("nullable-nulls", <<
+  O("Q", "Query", [things |-> Lst(<<Ref("t1"), Ref("t2")>>), thing |-> E11_thingFn]),
+  O("t1", "Thing", [id |-> Str("t1"), base |-> Null, unit |-> Null, note |-> Null]),
+  O("t2", "Thing", [id |-> Str("t2"), base |-> Num(5), unit |-> Ref("n2"), note |-> Null]),
+  O("n2", "Unit", [code |-> Null, factor |-> Num(7)]) >>)
+\* (the null in a non-null position sits on a Note, from which no @requires input is read)
+E11_U3 == Uv("null-in-nonnull", <<
+  O("Q", "Query", [things |-> Lst(<<Ref("t1"), Ref("t2")>>), thing |-> E11_thingFn]),
+  O("t1", "Thing", [id |-> Str("t1"), base |-> Num(3), unit |-> Ref("n1"), note |-> Ref("o1")]),
+  O("t2", "Thing", [id |-> Str("t2"), base |-> Num(5), unit |-> Ref("n1"), note |-> Ref("o2")]),
+  O("n1", "Unit", [code |-> Str("kg"), factor |-> Num(2)]),
+  O("o1", "Note", [text |-> Str("memo")]),
+  O("o2", "Note", [text |-> Null]) >>)
+E11_U4 == Uv("empty-lists", <<
+  O("Q", "Query", [things |-> Lst(<<>>), thing |-> E11_thingFn]),
+  O("t1", "Thing", [id |-> Str("t1"), base |-> Num(3), unit |-> Null, note |-> Null]) >>)
+E11 == Entry("requires2", <<E11_base, E11_mid, E11_top>>, <<E11_U1, E11_U2, E11_U3, E11_U4>>,
+  << Menu("Query.thing", << <<Arg("id", Str("t1"))>>, <<Arg("id", Str("t2"))>>, <<Arg("id", Var("tid"))>> >>) >>,
+  << VarM("tid", NN(TID), <<Str("t2"), Str("t1")>>) >>,
+  << Op(Doc(<< Fo("things", <<Fl("top")>>) >>, <<>>, <<>>), <<>>),
+     Op(Doc(<< Fo("things", <<Fl("both"), Fl("wide"), Fl("mid"), Fo("note", <<Fl("text")>>)>>) >>, <<>>, <<>>), <<>>),
+     Op(Doc(<< Field("thing", "", <<Arg("id", Str("t2"))>>, <<>>, <<Fl("top"), Fl("base"), Fo("unit", <<Fl("code")>>)>>) >>, <<>>, <<>>), <<>>) >>)
+
+\* ============================================================================ E12 "keys2"
+\* an entity reached through FOUR subgraphs with a KEY CHANGE at every hop (a -> b c -> d { e }), compound and nested
+\* keys inside a list of lists and behind a union, and the way back (peers: d { e } -> b c -> x)
+E12_a == SG("a", <<
+  Obj("Query", <<>>, <<>>, << F("grid", Li(Li(Ty("Thing")))), F("anys", NN(Li(NN(Ty("Any"))))), F("first", Ty("Thing")) >>),
+  Uni("Any", <<"Thing", "Other">>),
+  Obj("Other", <<>>, <<>>, << F("label", NN(TStr)) >>),
+  Obj("Thing", <<Key(<<FS("a")>>)>>, <<>>, << F("a", NN(TID)) >>) >>)
+E12_b == SG("b", <<
+  Obj("Thing", <<Key(<<FS("a")>>), Key(<<FS("b"), FS("c")>>)>>, <<>>, << F("a", NN(TID)), F("b", NN(TStr)), F("c", NN(TInt)), F("x", TStr) >>) >>)
+E12_c == SG("c", <<
+  Obj("Thing", <<Key(<<FS("b"), FS("c")>>), Key(<<FSN("d", <<FS("e")>>)>>)>>, <<>>,
+      << F("b", NN(TStr)), F("c", NN(TInt)), F("d", NN(Ty("D"))), F("y", TStr) >>),
+  Obj("D", <<>>, <<>>, << F("e", NN(TID)) >>) >>)
+E12_d == SG("d", <<
+  Obj("Thing", <<Key(<<FSN("d", <<FS("e")>>)>>)>>, <<>>, << F("d", NN(Ty("D"))), F("z", TStr), F("peers", Li(NN(Ty("Thing")))) >>),
+  Obj("D", <<>>, <<>>, << F("e", NN(TID)) >>) >>)
+E12_U1 == Uv("all-present", <<
+  O("Q", "Query", [grid |-> Lst(<<Lst(<<Ref("k1"), Ref("k2")>>), Lst(<<Ref("k2")>>)>>), anys |-> Lst(<<Ref("k1"), Ref("oth"), Ref("k3")>>), first |-> Ref("k3")]),
+  O("k1", "Thing", [a |-> Str("1"), b |-> Str("x"), c |-> Num(1), d |-> Ref("d1"), x |-> Str("x1"), y |-> Str("y1"), z |-> Str("z1"), peers |-> Lst(<<Ref("k2"), Ref("k3")>>)]),
+  O("k2", "Thing", [a |-> Str("2"), b |-> Str("x"), c |-> Num(2), d |-> Ref("d2"), x |-> Str("x2"), y |-> Str("y2"), z |-> Str("z2"), peers |-> Lst(<<>>)]),
+  O("k3", "Thing", [a |-> Str("3"), b |-> Str("w"), c |-> Num(1), d |-> Ref("d3"), x |-> Str("x3"), y |-> Str("y3"), z |-> Str("z3"), peers |-> Lst(<<Ref("k1")>>)]),
+  O("d1", "D", [e |-> Str("e1")]), O("d2", "D", [e |-> Str("e2")]), O("d3", "D", [e |-> Str("e3")]),
+  O("oth", "Other", [label |-> Str("other")]) >>)
+E12_U2 == Uv("nullable-nulls", <<
+  O("Q", "Query", [grid |-> Lst(<<Null, Lst(<<Ref("k1"), Null>>), Lst(<<>>)>>), anys |-> Lst(<<Ref("k2"), Ref("k1")>>), first |-> Null]),
+  O("k1", "Thing", [a |-> Str("1"), b |-> Str("x"), c |-> Num(1), d |-> Ref("d1"), x |-> Null, y |-> Str("y1"), z |-> Null, peers |-> Null]),
+  O("k2", "Thing", [a |-> Str("2"), b |-> Str("x"), c |-> Num(2), d |-> Ref("d2"), x |-> Str("x2"), y |-> Null, z |-> Str("z2"), peers |-> Lst(<<Ref("k1")>>)]),
+  O("d1", "D", [e |-> Str("e1")]), O("d2", "D", [e |-> Str("e2")]) >>)
+E12_U3 == Uv("null-in-nonnull", <<
+  O("Q", "Query", [grid |-> Lst(<<Lst(<<Ref("k1")>>)>>), anys |-> Lst(<<Ref("k1"), Ref("oth")>>), first |-> Ref("k1")]),
+  O("k1", "Thing", [a |-> Str("1"), b |-> Str("x"), c |-> Num(1), d |-> Ref("d1"), x |-> Str("x1"), y |-> Str("y1"), z |-> Str("z1"), peers |-> Lst(<<Ref("k1")>>)]),
+  O("d1", "D", [e |-> Str("e1")]),
+  O("oth", "Other", [label |-> Null]) >>)
+E12_U4 == Uv("empty-lists", <<
+  O("Q", "Query", [grid |-> Lst(<<Lst(<<>>)>>), anys |-> Lst(<<>>), first |-> Ref("k1")]),
+  O("k1", "Thing", [a |-> Str("1"), b |-> Str("x"), c |-> Num(1), d |-> Ref("d1"), x |-> Str("x1"), y |-> Str("y1"), z |-> Str("z1"), peers |-> Lst(<<>>)]),
+  O("d1", "D", [e |-> Str("e1")]) >>)
+E12 == Entry("keys2", <<E12_a, E12_b, E12_c, E12_d>>, <<E12_U1, E12_U2, E12_U3, E12_U4>>, <<>>, <<>>,
+  << Op(Doc(<< Fo("first", <<Fl("z")>>) >>, <<>>, <<>>), <<>>),
+     Op(Doc(<< Fo("grid", <<Fl("z"), Fl("x")>>) >>, <<>>, <<>>), <<>>),
+     Op(Doc(<< Fo("anys", <<Fl("__typename"), Inline("Thing", <<>>, <<Fl("y"), Fo("peers", <<Fl("x"), Fl("a")>>)>>), Inline("Other", <<>>, <<Fl("label")>>)>>) >>, <<>>, <<>>), <<>>) >>)
+
+\* ============================================================================ E13 "requires3"
+\* @requires with an ARGUMENT on the required field: offers.offer needs price(cur: "EUR") of prices; the client may
+\* select price with other arguments next to it (the planner has to alias / remap the required selection).
+\* (FedNondet keys its slots of key / @requires inputs without arguments: this entry's requiring field is left out there.)
+E13_prices == SG("prices", <<
+  Obj("Query", <<>>, <<>>, << F("wares", NN(Li(NN(Ty("Ware"))))) >>),
+  Obj("Ware", <<Key(<<FS("id")>>)>>, <<>>, << F("id", NN(TID)), FA("price", TInt, "cur", NN(TStr)), F("label", TStr) >>) >>)
+E13_offers == SG("offers", <<
+  Obj("Ware", <<Key(<<FS("id")>>)>>, <<>>,
+      << F("id", NN(TID)), Ext(FA("price", TInt, "cur", NN(TStr))), Ext(F("label", TStr)),
+         Req(F("offer", TStr), <<FSA("price", <<Arg("cur", Str("EUR"))>>)>>),
+         Req(F("offer2", TStr), <<FSA("price", <<Arg("cur", Str("USD"))>>), FS("label")>>),
+         Req(F("tag", TStr), <<FS("label")>>) >>) >>)
+E13_price(e, u) == Fn("cur", <<Case(Str("EUR"), e), Case(Str("USD"), u)>>, Null)
+E13_U1 == Uv("all-present", <<
+  O("Q", "Query", [wares |-> Lst(<<Ref("w1"), Ref("w2")>>)]),
+  O("w1", "Ware", [id |-> Str("w1"), price |-> E13_price(Num(10), Num(12)), label |-> Str("one")]),
+  O("w2", "Ware", [id |-> Str("w2"), price |-> E13_price(Num(20), Num(23)), label |-> Str("two")]) >>)
+E13_U2 == Uv("nullable-nulls", <<
+  O("Q", "Query", [wares |-> Lst(<<Ref("w1"), Ref("w2")>>)]),
+  O("w1", "Ware", [id |-> Str("w1"), price |-> E13_price(Null, Num(12)), label |-> Null]),
+  O("w2", "Ware", [id |-> Str("w2"), price |-> E13_price(Num(20), Null), label |-> Str("two")]) >>)
+E13_U3 == Uv("empty-lists", << O("Q", "Query", [wares |-> Lst(<<>>)]) >>)
+E13 == Entry("requires3", <<E13_prices, E13_offers>>, <<E13_U1, E13_U2, E13_U3>>,
+  << Menu("Ware.price", << <<Arg("cur", Str("USD"))>>, <<Arg("cur", Str("EUR"))>>, <<Arg("cur", Var("cur"))>> >>) >>,
+  << VarM("cur", NN(TStr), <<Str("USD"), Str("CHF")>>) >>,
+  << Op(Doc(<< Fo("wares", <<Fl("tag"), Fl("label"), Field("price", "", <<Arg("cur", Str("USD"))>>, <<>>, <<>>)>>) >>, <<>>, <<>>), <<>>) >>)
+
 \* ============================================================================ the catalog
-Catalog == <<[E1 EXCEPT !.broken = E1_broken], E2, E3, E4, E5, E6, E7, E8, E9, E10>>
+Catalog == <<[E1 EXCEPT !.broken = E1_broken], E2, E3, [E4 EXCEPT !.broken2 = E4_inconsistent], E5, E6, E7, E8, E9, E10, E11, E12, E13>>
 Supers == TLCEval([i \in DOMAIN Catalog |-> SuperTypes(Catalog[i].sgs)])
 Subs == TLCEval([i \in DOMAIN Catalog |-> TLCEval([j \in DOMAIN Catalog[i].sgs |-> SubTypes(Catalog[i].sgs[j])])])
 
@@ -587,7 +723,9 @@ SupPairs == TLCEval([e \in DOMAIN Catalog |-> TLCEval(SupportPairs(e))])
 \* constant definition would be pre-evaluated by TLC at the start of every run that extends this module)
 EntryOK(i) ==
   /\ Composable(Catalog[i].sgs)
-  /\ \A u \in DOMAIN Catalog[i].universes :
-        /\ WellTyped(Supers[i], Catalog[i].universes[u])
-        /\ UniqueKeys(Catalog[i].sgs, Supers[i], Catalog[i].universes[u])
+  /\ \A u \in DOMAIN Catalog[i].universes : Consistent(Catalog[i].sgs, Supers[i], Catalog[i].universes[u])
+\* the deliberately inconsistent universes must be REJECTED by the predicate (non-vacuity)
+NegativesRejected ==
+  /\ ~Consistent(Catalog[1].sgs, Supers[1], Catalog[1].broken)       \* duplicate key
+  /\ ~Consistent(Catalog[4].sgs, Supers[4], Catalog[4].broken2)      \* two owners of a shared field disagree
 =============================================================================
